@@ -1,5 +1,8 @@
 import Gmx.Model.Access
 import Gmx.Gen.StoreBinding
+import Gmx.Gen.Constraints
+import Gmx.Gen.ConstraintsReviewed
+import Gmx.Gen.ConstraintFacts
 import Gmx.Model.Handover
 /-!
 # C19 — privileged instructions reject callers without the required role
@@ -96,6 +99,25 @@ open Gmx.Gen.StoreBinding in
 theorem foreign_allowlist_tight :
     (foreignStateAllowed.all fun p => (info p.1).attr.isSome &&
       (stateAccounts p.1).any fun a => a.name == p.2 && !storeBound a.binding) = true := by
+  decide +kernel
+
+/-! ## account constraints are how authority and ownership are enforced -/
+
+/-- EVERY relation Anchor enforces on EVERY field of EVERY accounts struct of the five programs (type,
+signer / mut / init, `has_one`, `constraint`, `seeds`, `seeds::program`, `bump`, `address`, `owner`, `close`,
+`token::*`, `associated_token::*`, `mint::*`, …) is exactly the reviewed one (pinned in
+translator/c19_expected_constraints.json). A dropped, weakened or added constraint anywhere breaks
+this; the translator prints the readable diff (struct.field, relation). -/
+theorem constraints_match_reviewed : Gmx.Gen.Constraints.rows = Gmx.Gen.ConstraintsReviewed.rows := by
+  decide +kernel
+
+/-- the lamports of a closed account go to a signer of the call or to the account the closed account itself
+names (`has_one`) — except the two reviewed cases: a config buffer is closed by its (signing, `has_one`)
+authority towards a receiver of its choice; a virtual inventory's rent goes to the store's wallet PDA -/
+theorem close_targets_bound :
+    (Gmx.Gen.ConstraintFacts.closeTargets.all fun r =>
+      r.2.2.1 || r.2.2.2 ||
+      r.1 == "store::CloseMarketConfigBuffer.buffer" || r.1 == "store::CloseVirtualInventory.virtual_inventory") = true := by
   decide +kernel
 
 /-- the in-handler authority checks, exactly: the six owner-or-keeper `close_*` (ORDER_KEEPER, only
